@@ -644,6 +644,99 @@ func runC18(c *Ctx) {
 		}, token.EQL, true), G1Opt{})
 		c.G1s("G-checksum", "readBlock|ReadAt checked", rb, "ReadAt", namedCall("ReadAt"), G1Opt{})
 	}
+
+	// ---- rollover / reopen: the persisted write cursor and the rollback of a failed write
+	c.R.Rule("W-cursor", "transaction.writePendingAndCommit persists the write cursor as serializeWriteRow(wc.curFileNum, wc.curOffset), both read from the live cursor after the pending blocks were written (not the values saved for rollback); the initial row is (0, 0)")
+	c.R.Rule("O-rollback", "blockStore.handleRollback closes the handle of the current write file (when it lies beyond the rollback file) before the cursor's file number is moved back and the newer files are deleted, and re-opens a file for the rolled-back cursor when no handle is installed")
+	if w := c.fn(ffl, "transaction", "writePendingAndCommit"); w != nil {
+		calls := ssau.CallsIn(w, callPred(R{ffl, "", "serializeWriteRow"}))
+		c.R.Check("W-cursor", "writePendingAndCommit|persists the cursor once", len(calls) == 1, c.pos(w.Pos()), fmt.Sprintf("%d serializeWriteRow call(s)", len(calls)))
+		for _, cl := range calls {
+			a := cl.Common().Args
+			okArgs := fieldIs("writeCursor", "curFileNum")(a[0]) && fieldIs("writeCursor", "curOffset")(a[1])
+			c.R.Check("W-cursor", "writePendingAndCommit|row = live cursor", okArgs, c.posOf(cl), "the row is built from wc.curFileNum and wc.curOffset")
+			// read after the block writes
+			writes := ssau.CallsIn(w, callPred(R{ffl, "blockStore", "writeBlock"}))
+			okOrder := len(writes) >= 1
+			for _, arg := range a[:2] {
+				ld, isLd := ssau.Unwrap(arg).(*ssa.UnOp)
+				if !isLd {
+					okOrder = false
+					continue
+				}
+				// the load must not be reachable before all writes: i.e. cutting at the load, no writeBlock call is reachable after it
+				r := ssau.ReachAfter(w, ld, ssau.NewCut())
+				for _, wr := range writes {
+					if r.Instr(wr) {
+						okOrder = false
+					}
+				}
+			}
+			c.R.Check("W-cursor", "writePendingAndCommit|cursor read after the block writes", okOrder, c.posOf(cl), "no block is written after the cursor values were read")
+			// the row is what gets stored under the write-location key
+			okPut := false
+			for _, put := range ssau.CallsIn(w, namedCall("Put")) {
+				pa := put.Common().Args
+				if ssau.DependsOn(pa[len(pa)-1], func(y ssa.Value) bool { return y == cl.Value() }) {
+					okPut = true
+				}
+			}
+			c.R.Check("W-cursor", "writePendingAndCommit|row stored in the metadata bucket", okPut, c.posOf(cl), "the serialized row is the value of the Put")
+		}
+	}
+	if h := c.fn(ffl, "blockStore", "handleRollback"); h != nil {
+		isNum := fieldIs("writeCursor", "curFileNum")
+		var closeIf *ssa.If
+		for _, i := range ssau.Ifs(h) {
+			b, ok := i.Cond.(*ssa.BinOp)
+			if !ok || b.Op != token.GTR || !isNum(b.X) || !paramNamed(b.Y, "oldBlockFileNum") {
+				continue
+			}
+			// the arm that closes: a Close call reachable only through the true arm
+			cut := ssau.NewCut()
+			cut.AddEdge(i.Block(), ssau.Arm(i, true))
+			r := ssau.ReachFromEntry(h, cut)
+			for _, cl := range ssau.CallsIn(h, namedCall("Close")) {
+				if !r.Instr(cl) {
+					closeIf = i
+				}
+			}
+		}
+		c.R.Check("O-rollback", "handleRollback|closes the handle of a file that will be deleted", closeIf != nil, c.pos(h.Pos()), "a Close call sits on the true arm of wc.curFileNum > oldBlockFileNum")
+		if closeIf != nil {
+			cut := ssau.NewCut()
+			cut.AddInstr(closeIf)
+			r := ssau.ReachFromEntry(h, cut)
+			bad := ""
+			for _, b := range h.Blocks {
+				for _, in := range b.Instrs {
+					if st, ok := in.(*ssa.Store); ok && ssau.IsFieldOf(st.Addr, "writeCursor", "curFileNum") && r.Instr(in) {
+						bad = c.posOf(in)
+					}
+					if ci, ok := in.(ssa.CallInstruction); ok && r.Instr(in) {
+						if ssau.IsFieldOf(ssau.Unwrap(ci.Common().Value), "blockStore", "deleteFileFunc") {
+							bad = c.posOf(in)
+						}
+					}
+				}
+			}
+			det := "the close test is evaluated before the cursor's file number changes and before any file is deleted"
+			if bad != "" {
+				det = "the cursor's file number is changed / a file is deleted at " + bad + " before the close test is evaluated"
+			}
+			c.R.Check("O-rollback", "handleRollback|close before moving the cursor back", bad == "", c.posOf(closeIf), det)
+		}
+		// reopen when no handle
+		okOpen := false
+		for _, b := range h.Blocks {
+			for _, in := range b.Instrs {
+				if ci, ok := in.(ssa.CallInstruction); ok && ssau.IsFieldOf(ssau.Unwrap(ci.Common().Value), "blockStore", "openWriteFileFunc") {
+					okOpen = isNum(ci.Common().Args[0])
+				}
+			}
+		}
+		c.R.Check("O-rollback", "handleRollback|reopens the rolled-back file", okOpen, c.pos(h.Pos()), "openWriteFileFunc(wc.curFileNum) installs a handle for the rolled-back cursor")
+	}
 }
 
 func stripIface(v ssa.Value) ssa.Value {
